@@ -25,7 +25,7 @@ static const Part kParts[] = {
 	{"C14", "filewriter-matrix", 300, 20000},
 	{"C17", "resource-layout", 12000, 200000},
 	{"C18", "twin-env", 10000, 300000},
-	{"C20", "limits", 52, 124},
+	{"C20", "limits", 58, 140},
 };
 
 std::vector<Part> suiteFor(const std::string& prop) {
